@@ -607,6 +607,7 @@ package memberlist
 //@   at call (*Memberlist).encryptLocalState: set $encErr := res1
 //@   at call (*Memberlist).encryptLocalState: set $crypt := res0
 //@   at call net.Conn.Write: assert ciphertext-only [C15]: $encOn ==> $encErr == 0 && arg0 == $crypt
+//@   at call net.Conn.SetDeadline: assert keeps-callers-deadline [C03,C19]: false     // the deadline of a stream belongs to whoever opened or accepted it (the TCP fallback ping arms it with what is left of the probe deadline); writing a message never re-arms it
 
 //@ func (*Memberlist).getBroadcasts(m, overhead, limit)
 //@   safety [C11,C13,C20]
@@ -965,6 +966,7 @@ package memberlist
 //@   requires ok: mlNet(m)
 //@   at call (*Memberlist).verifyProtocol: set $verifyRes := res
 //@   at call (*Memberlist).mergeState: assert gate [C09]: $verifyRes == 0 && (join && m.config.Merge != nil ==> $mergeRes == 0)
+//@   at call (*Memberlist).mergeState: assert merges-what-was-received [C01,C02,C09]: remote == remoteNodes     // every received entry reaches the state functions: what is "already known" is for them to decide (an equal-incarnation claim about the local node must be refuted)
 //@   at call (*Memberlist).mergeState: set $merged := $merged + 1
 //@   at call Delegate.MergeRemoteState: assert after-merge [C09]: $merged == old($merged) + 1 && !isnil(userBuf)
 //@   ensures all-or-nothing [C09]: result != nil ==> $merged == old($merged)
@@ -1630,3 +1632,19 @@ package memberlist
 //@   requires nn: c != nil && c.Ch != nil && n != nil
 //@ func ParseCIDRs(v)
 //@   safety [C13,C18]
+
+// C19/C03: the TCP fallback ping lives within the probe deadline: the connection is dialled with what is left of it and
+// armed with it, and nothing on the way to the ack re-arms it (rawSendMsgStream/keeps-callers-deadline).
+//@ func (*Memberlist).sendPingAndWaitForAck(m, a, ping, deadline)
+//@   safety [C13,C19,C20]
+//@   requires ok: mlNet(m)
+//@   at call net.Conn.SetDeadline: assert probe-deadline [C03,C19]: arg0 == deadline
+//@   ensures-internal seq-checked [C19]: result0 ==> result1 == nil && ack.SeqNo == ping.SeqNo
+
+// C13/C09: the msgpack helper reports exactly what the decoder reports: a body that fails to decode (a truncated one
+// included) is an error for every handler, and handlers drop the message on error.
+//@ ghost $dErr int
+//@ func decode(buf, out)
+//@   safety [C13]
+//@   at call (*github.com/hashicorp/go-msgpack/v2/codec.Decoder).Decode: set $dErr := res
+//@   ensures-internal faithful [C09,C13]: (result == nil) <==> ($dErr == 0)
